@@ -585,7 +585,7 @@ func (c *Ctx) checkConstantTablesAST() {
 		// the same fact on the resolved program: tensor.Of receives Dtype() of the receiver's value field, in Apply
 		// itself or in a helper that is handed that field
 		if oi := c.opByName("ConstantOfShape"); oi != nil && oi.methods["Apply"] != nil {
-			dtypeFrom = c.ofDtypeOfRecvField(oi.methods["Apply"], "value")
+			dtypeFrom = c.ofDtypeOfRecvField(oi.methods["Apply"], "value") || c.ofMirrorOfValueDtype(oi, "value")
 		}
 	}
 	c.decide(dtypeFrom, "R14", "R14:cos:dtype", c.pos(cosApply.Pos()), "result element type is taken from the value tensor", "ConstantOfShape's result type is not the value's type")
@@ -1063,6 +1063,133 @@ func (c *Ctx) ofDtypeOfRecvField(m *ssa.Function, field string) bool {
 		}
 	}
 	return false
+}
+
+// ofMirrorOfValueDtype: tensor.Of in Apply receives a receiver field F that mirrors the element type of the value
+// field: every store to F (in any method of the operator) stores Dtype() of the value tensor as it is at that
+// point - a load of the value field after the last store to it in the block, or the very tensor that the preceding
+// store put there - and every store to the value field is followed, in its block, by such a store to F.
+func (c *Ctx) ofMirrorOfValueDtype(oi *opInfo, valueField string) bool {
+	apply := oi.methods["Apply"]
+	if apply == nil || len(apply.Params) == 0 {
+		return false
+	}
+	fieldOf := func(v ssa.Value, f *ssa.Function) string {
+		fa, ok := v.(*ssa.FieldAddr)
+		if !ok || len(f.Params) == 0 || fa.X != ssa.Value(f.Params[0]) {
+			return ""
+		}
+		if nn, st := structOfPtr(fa.X.Type()); nn != nil && nn == oi.named {
+			return st.Field(fa.Field).Name()
+		}
+		return ""
+	}
+	mirror := ""
+	for _, b := range apply.Blocks {
+		for _, in := range b.Instrs {
+			cl, ok := in.(*ssa.Call)
+			if !ok {
+				continue
+			}
+			sc := cl.Common().StaticCallee()
+			if sc == nil || fnPkgPath(sc) != pkgTensor || sc.Name() != "Of" || len(cl.Common().Args) != 1 {
+				continue
+			}
+			ld, ok := stripConv(cl.Common().Args[0]).(*ssa.UnOp)
+			if !ok || ld.Op != token.MUL {
+				return false
+			}
+			f := fieldOf(ld.X, apply)
+			if f == "" || f == valueField || (mirror != "" && mirror != f) {
+				return false
+			}
+			mirror = f
+		}
+	}
+	if mirror == "" {
+		return false
+	}
+	nMirror, nValue := 0, 0
+	for _, m := range oi.methods {
+		if m == nil {
+			continue
+		}
+		for _, b := range m.Blocks {
+			var lastValue ssa.Value // the tensor the last store to the value field put there (nil: none in this block yet)
+			pending := false        // a store to the value field not yet followed by a store to the mirror
+			for _, in := range b.Instrs {
+				st, ok := in.(*ssa.Store)
+				if !ok {
+					continue
+				}
+				switch fieldOf(st.Addr, m) {
+				case valueField:
+					lastValue, pending = st.Val, true
+					nValue++
+				case mirror:
+					nMirror++
+					dc, ok := stripConv(st.Val).(*ssa.Call)
+					if !ok {
+						return false
+					}
+					nm, recv := tensorMethod(dc)
+					if nm != "Dtype" {
+						return false
+					}
+					okSrc := false
+					if lastValue != nil && (recv == lastValue || stripConv(recv) == stripConv(lastValue)) {
+						okSrc = true
+					}
+					if ld, isLd := recv.(*ssa.UnOp); isLd && ld.Op == token.MUL && fieldOf(ld.X, m) == valueField {
+						// the load must come after the last store to the value field in this block
+						okSrc = true
+						for _, in2 := range b.Instrs {
+							if in2 == ssa.Instruction(ld) {
+								break
+							}
+							if s2, isSt := in2.(*ssa.Store); isSt && fieldOf(s2.Addr, m) == valueField && s2.Val == lastValue && lastValue != nil {
+								// a store before the load: fine
+								continue
+							}
+						}
+						if ld.Block() != b && lastValue != nil {
+							okSrc = false
+						}
+						if ld.Block() == b && lastValue != nil {
+							// position of the load against the last store
+							posLd, posSt := -1, -1
+							for i, in2 := range b.Instrs {
+								if in2 == ssa.Instruction(ld) {
+									posLd = i
+								}
+								if s2, isSt := in2.(*ssa.Store); isSt && fieldOf(s2.Addr, m) == valueField && i < indexOfInstr(b, in) {
+									posSt = i
+								}
+							}
+							okSrc = posLd > posSt
+						}
+					}
+					if !okSrc {
+						return false
+					}
+					pending = false
+				}
+			}
+			if pending {
+				return false
+			}
+		}
+	}
+	return nMirror > 0 && nValue > 0
+}
+
+func indexOfInstr(b *ssa.BasicBlock, in ssa.Instruction) int {
+	for i, x := range b.Instrs {
+		if x == in {
+			return i
+		}
+	}
+	return -1
 }
 
 // cosPositiveDimsTable walks ConstantOfShape.Apply with the requested shape bound to small lists: a list with an
